@@ -122,8 +122,17 @@ Section Evaluator.
     | O => fail Fuel
     | S f =>
       let* sv := m_load spec in
-      match sv with
-      | VNil (Some (parent, key)) =>
+      (* a speculative nil names its parent and key; a method found through the prototype
+         (a bound copy: Binding = ParentObj = the receiver, key = the method's name) is in
+         the same position *)
+      let target_of :=
+        match sv with
+        | VNil (Some (parent, key)) => Some (parent, key)
+        | VNative nf (Some parent) => Some (parent, KStr (native_name nf))
+        | _ => None
+        end in
+      match target_of with
+      | Some (parent, key) =>
         let* pv := m_load parent in
         match pv with
         | VNil None => ret None                      (* could not create this object *)
@@ -149,7 +158,7 @@ Section Evaluator.
           | Some obj => set_member obj member spec
           end
         end
-      | _ => fail Panic                               (* speculative object has no Str or Num *)
+      | None => fail Panic                            (* speculative object has no Str or Num *)
       end
     end.
 
@@ -158,7 +167,7 @@ Section Evaluator.
     let* lv := m_load left in
     let* left' :=
       match lv with
-      | VNil (Some _) =>
+      | VNil (Some _) | VNative _ (Some _) =>
         let* r := create_speculative n left in
         match r with
         | Some c => ret c
